@@ -54,6 +54,17 @@ func (icounter *LogInputCounterSet) CountRecordDrop(record *LogRecord) { // xx:i
 	icounter.droppedRecordsLengthTotal.unwrittenValue += uint64(record.RawLength)
 }
 
+// CountRecordPassToDrop re-counts a record as dropped after CountRecordPass has counted it as passed,
+// for filters running between the parser and the receiver (e.g. extraction transforms of an input).
+//
+// It must be called before the next UpdateMetrics, i.e. from the same goroutine right after CountRecordPass.
+func (icounter *LogInputCounterSet) CountRecordPassToDrop(record *LogRecord) { // xx:inline
+	icounter.passedRecordsCountTotal.unwrittenValue--
+	icounter.passedRecordsLengthTotal.unwrittenValue -= uint64(record.RawLength)
+	icounter.droppedRecordsCountTotal.unwrittenValue++
+	icounter.droppedRecordsLengthTotal.unwrittenValue += uint64(record.RawLength)
+}
+
 // UpdateMetrics writes unwritten values in the counter to underlying Prometheus counters
 func (icounter *LogInputCounterSet) UpdateMetrics() {
 	icounter.logCustomCounterHost.UpdateMetrics()
